@@ -172,7 +172,7 @@ impl From<LspTokenType> for Option<SemanticToken> {
             TokenType::Digits => None,
             TokenType::Type => Some(KEYWORD_INDEX),
             TokenType::EndType => Some(KEYWORD_INDEX),
-            TokenType::Array => None,
+            TokenType::Array => Some(KEYWORD_INDEX),
             TokenType::Struct => Some(KEYWORD_INDEX),
             TokenType::EndStruct => Some(KEYWORD_INDEX),
             TokenType::WString => Some(KEYWORD_INDEX),
